@@ -216,11 +216,19 @@ def run_cases(module: str, cases: list[dict], *, workers: int, case_timeout: flo
             if next_probe is not None and elapsed >= next_probe and worker.proc:
                 diag = quiescence.diagnose(worker.proc.pid, worker.log_path, scope=quiescence_scope)
                 if diag["verdict"] == "quiescent":
+                    # the answer may have arrived while we were sampling (an idle worker waiting for its next
+                    # case is quiescent too): look into the channel before believing the diagnosis
+                    late = worker.read_line(0.2)
+                    if isinstance(late, dict):
+                        return late
                     worker.kill()
                     return {"timeout": True, "diag": diag, "elapsed": elapsed}
                 next_probe = elapsed + max(5.0, quiescence_after or 5.0)
             if elapsed >= timeout:
                 diag = quiescence.diagnose(worker.proc.pid, worker.log_path, scope=quiescence_scope) if worker.proc else {}
+                late = worker.read_line(0.2)
+                if isinstance(late, dict):
+                    return late
                 worker.kill()
                 return {"timeout": True, "diag": diag, "elapsed": elapsed}
 
